@@ -63,6 +63,8 @@ theorem program_fits (p : Bytes) (flg : Nat) (prog : Prog)
   · cases h
   · cases h
   · rename_i t ht
+    split at h
+    · cases h
     simp only [Option.some.injEq] at h
     subst h
     have h1 := emitLen_le_count t (parse_ok ht)
@@ -99,7 +101,9 @@ theorem regcomp_wf (p : Bytes) (flg : Nat) (prog : Prog)
   split at h
   · cases h
   · cases h
-  · simp only [Option.some.injEq] at h
+  · split at h
+    · cases h
+    simp only [Option.some.injEq] at h
     subst h
     exact emit_wf _
 
